@@ -49,14 +49,15 @@ REGS = re.compile(r"r(\d+): 0x([0-9a-f]{4})")
 CYC = re.compile(r"(\d+) clock cycles have passed")
 
 
-def hexfile(words, org):
-    """Intel HEX of a word sequence (little endian) at org"""
-    data = b"".join(bytes([w & 255, w >> 8]) for w in words)
+def hexfile(segments):
+    """Intel HEX of word sequences (little endian): [(org, words), ...]"""
     out = []
-    for o in range(0, len(data), 16):
-        chunk = data[o:o + 16]
-        rec = bytes([len(chunk), ((org + o) >> 8) & 255, (org + o) & 255, 0]) + chunk
-        out.append(":%s%02X" % (rec.hex().upper(), (-sum(rec)) & 255))
+    for org, words in segments:
+        data = b"".join(bytes([w & 255, w >> 8]) for w in words)
+        for o in range(0, len(data), 16):
+            chunk = data[o:o + 16]
+            rec = bytes([len(chunk), ((org + o) >> 8) & 255, (org + o) & 255, 0]) + chunk
+            out.append(":%s%02X" % (rec.hex().upper(), (-sum(rec)) & 255))
     return "\n".join(out) + "\n:00000001FF\n"
 
 
@@ -79,13 +80,15 @@ def routine_part(chk, vdir, tier, rnd):
     if len(rts) < 15000:
         raise C.InfraError("only %d routines" % len(rts))
     if tier == "quick":
-        rts = rnd.sample(rts, 500)
+        # the single-instruction routines (one per cell of the cycle tables) and the break_io stores always run
+        fixed = [r for r in rts if isinstance(r["what"][0], str)]
+        rts = fixed + rnd.sample([r for r in rts if not isinstance(r["what"][0], str)], 500)
     wd = os.path.join(rd, "run")
     os.makedirs(wd)
     jobs = []
     for i, r in enumerate(rts):
         path = os.path.join(wd, "r%d.hex" % i)
-        open(path, "w").write(hexfile(r["words"], ORG))
+        open(path, "w").write(hexfile([(0x300, r["data"]), (ORG, r["words"])]))
         jobs.append((os.path.join(vdir, "naken_util"), path, r["bio"]))
     with ThreadPoolExecutor(C.NCPU) as ex:
         outs = list(ex.map(run_routine, jobs))
@@ -104,7 +107,7 @@ def routine_part(chk, vdir, tier, rnd):
         for n, v in REGS.findall(tail):
             if 4 <= int(n) <= 15:
                 regs[int(n)] = int(v, 16)
-        events.append(dict(id="r%d" % i, words=r["words"], org=ORG, bio=r["bio"], regs=regs, cycles=int(cy.group(1)), status=rc))
+        events.append(dict(id="r%d" % i, words=r["words"], data=r["data"], org=ORG, bio=r["bio"], regs=regs, cycles=int(cy.group(1)), status=rc))
     canaries = set()
     for e in rnd.sample([e for e in events if e["bio"] < 0], 6):
         c = json.loads(json.dumps(e))
@@ -130,7 +133,7 @@ def routine_part(chk, vdir, tier, rnd):
             continue
         e = byid[vid]
         r = rts[int(vid[1:])]
-        chk.report("Msp430:run:%s:%s" % (v["why"], "+".join(str(x) for x in r["what"][2:4])),
+        chk.report("Msp430:run:%s:%s" % (v["why"], "+".join(str(x) for x in (r["what"] if isinstance(r["what"][0], str) else r["what"][2:4]))),
                    "%s: routine %s words %s: simulator regs %s cycles %d status %d, model %s" % (
                        v["why"], r["what"], " ".join("%04x" % w for w in r["words"]), e["regs"], e["cycles"], e["status"], json.dumps(v["expect"])),
                    dict(routine=r, observed=e, expect=v["expect"], why=v["why"]))
